@@ -168,6 +168,11 @@ def split_top(s):
     return parts
 
 
+# "auto": the model gives no result type (it rejects the application, or the translator failed
+# closed): try the narrowest return annotation first, the first one that type-checks is used
+AUTO_RETS = ["nat", "int", "float", "bool", "tuple[nat, nat]", "tuple[int, int]", "tuple[float, float]"]
+
+
 def main():
     cases = json.load(sys.stdin)
     lines = ["import repo_shim  # noqa", "from guppylang import guppy", "from guppylang.std.builtins import nat", ""]
@@ -175,6 +180,9 @@ def main():
         ps = ", ".join(f"a{j}: {t}" for j, t in enumerate(c["params"]))
         if c["ret"] is None:
             lines += ["@guppy", f"def f{i}({ps}) -> None:", f"    _x = {c['expr']}", ""]
+        elif c["ret"] == "auto":
+            for k, rt in enumerate(AUTO_RETS):
+                lines += ["@guppy", f"def f{i}_{k}({ps}) -> {rt}:", f"    return {c['expr']}", ""]
         else:
             lines += ["@guppy", f"def f{i}({ps}) -> {c['ret']}:", f"    return {c['expr']}", ""]
     d = tempfile.mkdtemp(prefix="c04prog_", dir=os.getcwd())
@@ -187,23 +195,32 @@ def main():
     spec.loader.exec_module(mod)
     out = {}
     for i, c in enumerate(cases):
-        fn = getattr(mod, f"f{i}")
-        rec = {"status": "ok", "tree": None, "ops": [], "error": ""}
-        try:
-            pkg = fn.compile_function()
-        except GuppyError as e:
-            rec["status"] = "rejected"
-            rec["error"] = type(e.error).__name__ if hasattr(e, "error") else type(e).__name__
+        rec = {"status": "ok", "tree": None, "ops": [], "error": "", "ret_used": c["ret"]}
+        names = [f"f{i}"] if c["ret"] != "auto" else [f"f{i}_{k}" for k in range(len(AUTO_RETS))]
+        pkg, fname = None, None
+        for k, nm in enumerate(names):
+            fn = getattr(mod, nm)
+            try:
+                pkg = fn.compile_function()
+                fname = nm
+                if c["ret"] == "auto":
+                    rec["ret_used"] = AUTO_RETS[k]
+                break
+            except GuppyError as e:
+                if not rec["error"]:
+                    rec["error"] = type(e.error).__name__ if hasattr(e, "error") else type(e).__name__
+                rec["status"] = "rejected"
+            except Exception as e:  # noqa: BLE001
+                rec["status"] = "crash"
+                rec["error"] = f"{type(e).__name__}: {e}"[:300]
+                break
+        if pkg is None:
             out[c["id"]] = rec
             continue
-        except Exception as e:  # noqa: BLE001
-            rec["status"] = "crash"
-            rec["error"] = f"{type(e).__name__}: {e}"[:300]
-            out[c["id"]] = rec
-            continue
+        rec["status"], rec["error"] = "ok", ""
         hg = pkg.modules[0]
         ex = Extract(hg)
-        fdef = [n for n, dd in hg.nodes() if isinstance(dd.op, ops.FuncDefn) and dd.op.f_name == f"f{i}"][0]
+        fdef = [n for n, dd in hg.nodes() if isinstance(dd.op, ops.FuncDefn) and dd.op.f_name == fname][0]
         rec["ops"] = sorted(ex.opset(fdef))
         if c["ret"] is not None:
             try:
